@@ -13,6 +13,7 @@ import (
 // other revisions, faults and restarts. inject=true adds in-pass third-party actions right before PKO's writes.
 func genTeardownWorld(t *rapid.T, prop string, opts SetGenOpts, inject bool) *Scenario {
 	sc := &Scenario{Prop: prop}
+	sc.GracefulWidgets = rapid.IntRange(0, 2).Draw(t, "graceful") == 0
 	nsets := rapid.IntRange(1, 2).Draw(t, "nsets")
 	for i := 0; i < nsets; i++ {
 		set := GenSet(t, opts)
@@ -66,7 +67,11 @@ func genTeardownWorld(t *rapid.T, prop string, opts SetGenOpts, inject bool) *Sc
 				}
 				sc.Steps = append(sc.Steps, GenReconcile(t, ctrls))
 			case 6:
-				sc.Steps = append(sc.Steps, Step{Op: "gc"})
+				if sc.GracefulWidgets && rapid.Bool().Draw(t, "kubelet") {
+					sc.Steps = append(sc.Steps, Step{Op: "kubelet"})
+				} else {
+					sc.Steps = append(sc.Steps, Step{Op: "gc"})
+				}
 			case 7:
 				sc.Steps = append(sc.Steps, Step{Op: "restart"})
 			case 8, 9:
